@@ -9,6 +9,7 @@ under a fixed, fully determined fault script, and records what the applications 
 It is not an exploration: each fault script is ONE execution, and the set of scripts is part of the stated bound of the
 checks that use it (C04, C05, C07).  The scripts are periodic so that every residue of the datagram number meets every
 fate."""
+import os
 import struct
 
 from mc.world import World
@@ -157,20 +158,35 @@ def lap_params(tier):
 
 
 def start(tier):
-    """returns a handle; the laps run in the background"""
+    """returns a handle; the laps run in worker processes of their own.  The pool is created and all its workers are forked
+    HERE, in the calling (main) thread, before the check starts its own pools: nothing ever forks from a second thread"""
     import concurrent.futures as cf
+    import multiprocessing
     from mc import core
-    ex = cf.ThreadPoolExecutor(1)
     params = lap_params(tier)
-    return ex, ex.submit(core.pmap, "mc.lap", "run_lap", params, (), len(params), 1, True)
+    ex = cf.ProcessPoolExecutor(len(params), mp_context=multiprocessing.get_context("fork"), initializer=core._pool_init,
+                                initargs=("mc.lap", "run_lap", (), True))
+    futs = [ex.submit(core._pool_call, p) for p in params]
+    return ex, futs, params
 
 
 def collect(handle, prop):
     """-> (violations as core.Violation list, coverage dict)"""
     from mc import core
-    ex, fut = handle
-    res = fut.result()
-    ex.shutdown(wait=False)
+    ex, futs, params = handle
+    res = []
+    try:
+        for f, p in zip(futs, params):
+            try:
+                r = f.result(timeout=float(os.environ.get("VERIF_ITEM_TIMEOUT", "1500")))
+                if isinstance(r, core._Crash):
+                    core.JOB_CRASHES.append(r.text)
+                else:
+                    res.append(r)
+            except Exception as e:
+                raise RuntimeError("HARNESS-ERROR: the long-session run %r did not finish: %r" % (p, e))
+    finally:
+        ex.shutdown(wait=False, cancel_futures=True)
     out = []
     for r in res:
         for oracle, sig, msg in r["violations"]:
